@@ -268,3 +268,20 @@ impl Default for Mutex<()> {
 pub fn drop<'a, T>(g: MutexGuard<'a, T>, Tracked(clk): Tracked<&mut Clock>)
     ensures final(clk).now == old(clk).now + 1, final(clk).held == old(clk).held.remove(g.acquired_at()),
 { unimplemented!() }
+
+// std::borrow::Cow<'_, str> (stand-in with the two variants) and rpki's canonical_authority
+pub enum Cow<'a> { Borrowed(&'a str), Owned(String) }
+impl<'a> Cow<'a> {
+    pub open spec fn view(&self) -> Seq<char> {
+        match *self { Cow::Borrowed(s) => s@, Cow::Owned(s) => s@ }
+    }
+    #[verifier::external_body]
+    pub fn as_ref(&self) -> (r: &str) ensures r@ == self.view() { unimplemented!() }
+}
+impl Https {
+    pub uninterp spec fn canonical_authority_spec(&self) -> Seq<char>;
+    #[verifier::external_body]
+    pub fn canonical_authority(&self) -> (r: Cow<'_>) ensures r.view() == self.canonical_authority_spec() { unimplemented!() }
+    #[verifier::external_body] pub fn authority(&self) -> (r: &str) { unimplemented!() }
+    #[verifier::external_body] pub fn as_str(&self) -> (r: &str) { unimplemented!() }
+}
